@@ -330,6 +330,20 @@ def strat_out(ctx):
     })
 
 
+def strat_out_extreme(ctx):
+    # the same comparison between the default units and the extreme ends of the unit tables (slow kinetics seen through
+    # femtoseconds, large amounts seen through kmol, ...), mostly on the stochastic engines
+    ext = st.fixed_dictionaries({"space": st.sampled_from(["km", "fm", "µm", "m"]), "time": st.sampled_from(["fs", "ps", "h", "fs"]),
+                                 "quantity": st.sampled_from(["kmol", "molecule", "fmol", "mol"])})
+    return st.fixed_dictionaries({
+        "sys": gen.system_spec(variety="mild", max_species=2, max_reactions=2, max_order=2, max_cells=4,
+                               max_axis=2, count_exp=(0, 2), rate_exp=(-4, -1), min_reactions=1),
+        "engine": st.sampled_from(["gillespie", "gillespie", "tauleap", "euler"]),
+        "out_a": st.just(dict(si.DEFAULT_SYS)), "out_b": ext, "steps": st.integers(2, 12), "seed": st.integers(0, 2 ** 32 - 1),
+        "policy": st.sampled_from(["on_iteration", "on_interval", "on_t_sample"]),
+    })
+
+
 def check_out(ctx, c):
     spec = c["sys"]
     model = Model(spec)
@@ -362,6 +376,13 @@ def check_out(ctx, c):
         # event times are not on a grid: unit rounding of t_sample/t_max may move a boundary; compare
         # only when the number of samples agrees (counted otherwise)
         if len(ta.t) != len(tb.t):
+            lo, hi = sorted((len(ta.t), len(tb.t)))
+            if lo <= 1 and hi >= 2:
+                # not a boundary effect: one of the two runs of the same physical system stopped at once
+                raise Violation("gillespie (%s space): the run reported in (%s, %s) records %d samples, the same run reported in (%s, %s) records %d: "
+                                "the units asked for the output decide whether anything happens at all" % (
+                                    spec["space"]["type"], c["out_a"]["time"], c["out_a"]["quantity"], len(ta.t),
+                                    c["out_b"]["time"], c["out_b"]["quantity"], len(tb.t)), key="out:gillespie-stops")
             ctx.skip("gillespie: sample count differs under unit rounding of requested times")
             return
     if len(ta.t) != len(tb.t) or len(ta.data) != len(tb.data):
@@ -387,5 +408,6 @@ FACETS = [
     Facet("system", check_system, strategy=strat_system, examples=(480, 8000), shards=(16, 16)),
     Facet("one_cell_rhs", check_system, strategy=strat_onecell, examples=(320, 6000), shards=(8, 16)),
     Facet("euler", check_euler, strategy=strat_euler, examples=(800, 20000), shards=(8, 16), setup=sim.setup_plain),
+    Facet("output_units_extreme", check_out, strategy=strat_out_extreme, examples=(400, 8000), shards=(4, 16), setup=sim.setup_plain),
     Facet("output_units", check_out, strategy=strat_out, examples=(600, 12000), shards=(6, 16), setup=sim.setup_plain),
 ]
